@@ -375,6 +375,8 @@ cdef int gray2int(str graystr):
 
 cpdef str data(str msg):
     """Return the data frame in the message, bytes 9 to 22."""
+    if len(msg) != 28:
+        raise RuntimeError("%s: Not a long message, no data frame" % msg)
     return msg[8:-6]
 
 
